@@ -23,6 +23,7 @@ func registerIntrinsics(P *Program) {
 	registerCrypto(P)
 	registerIO(P)
 	registerKyber(P)
+	registerKyberDKG(P)
 }
 
 func cstr(v Value) (string, bool) {
